@@ -203,6 +203,49 @@ def h_root(ctx, form):
     ctx.vc("interpolant vanishes there (to the object's tolerance)", abs(_F(r)) <= TOL)
 
 
+# ---- minmax(): the extremum search is the root search of the derivative table, on the interval asked for
+def _minmax_contracts():
+    from pyvc.interp import SObj
+
+    def c_deriv(it, fref, args, kwargs):
+        return it.fresh("dy", "real")
+
+    def c_new(it, cref, args, kwargs):
+        it.info["prime_args"] = args
+        return SObj("Interpolation", {"_x": list(args[0]), "_y": list(args[1]), "_table": [], "_tol": Num.of(1e-10),
+                                      "_is_prime": True})
+
+    def c_root(it, fref, args, kwargs):
+        it.info["root_args"] = (args, kwargs)
+        return it.fresh("root", "real")
+    return {IP + ".derivative": c_deriv, IP: c_new, IP + ".root": c_root}
+
+
+@P.harness("minmax/is-root-of-the-derivative-table-on-the-same-interval", contracts=_minmax_contracts,
+           functions=[IP + ".minmax"], crosscheck=0)
+def h_minmax(ctx):
+    if ctx.native:
+        return
+    xs = [ctx.real("x%d" % i, -1000, 1000) for i in range(4)]
+    ip = ctx.obj("Interpolation")
+    ctx.setfield(ip, "_x", list(xs), as_float=False)
+    ctx.setfield(ip, "_y", [Num.of(0.0)] * 4, as_float=False)
+    ctx.setfield(ip, "_table", [], as_float=False)
+    ctx.setfield(ip, "_tol", 1e-10)
+    a, b = ctx.real("xl", -1000, 1000), ctx.real("xh", -1000, 1000)
+    mi = ctx.int("max_iter", lo=1, hi=10 ** 6)
+    r = ctx.method(ip, "minmax", a, b, mi)
+    pargs = ctx.it.info["prime_args"]
+    args, kwargs = ctx.it.info["root_args"]
+    ctx.vc("derivative table is built on the same abscissae", and_(*[pargs[0][i] == xs[i] for i in range(4)]))
+    recv = args[0]
+    got = dict(zip(("xl", "xh", "max_iter"), args[1:]))
+    got.update(kwargs)
+    ctx.vc("root() of the derivative table is called with the limits and the iteration cap that were asked for",
+           and_(recv.fields.get("_is_prime", False), got.get("xl", 0) == a, got.get("xh", 0) == b, got.get("max_iter", 1000) == mi))
+    ctx.vc("table of the object itself is not modified", and_(*[ctx.field(ip, "_x")[i] == xs[i] for i in range(4)]))
+
+
 # ---- bounded: binary64, n up to 9, smooth data, several roots, reversed and out-of-table limits, minmax, clients
 @P.bounded_check("float/tables", grid="tables of 2..9 points, equally and unequally spaced, shuffled; polynomial and smooth "
                  "(sin, exp) data; every sub-interval between consecutive sign changes / nodes; reversed and "
